@@ -106,6 +106,15 @@ class Track(object):
         """
         tun = self.get_tuning()
 
+        def add_item(item, duration):
+            # Split the item across bar lines until all of it is placed.
+            # This should be the standard behaviour of add_notes
+            while not self.add_notes(item, duration):
+                dur = self.bars[-1].value_left()
+                if not self.add_notes(item, dur):
+                    break
+                duration = value.subtract(duration, dur)
+
         def add_chord(chord, duration):
             if isinstance(chord, list):
                 for c in chord:
@@ -114,19 +123,13 @@ class Track(object):
                 chord = NoteContainer().from_chord(chord)
                 if tun:
                     chord = tun.find_chord_fingering(chord, return_best_as_NoteContainer=True)
-                if not self.add_notes(chord, duration):
-                    # This should be the standard behaviour of add_notes
-                    dur = self.bars[-1].value_left()
-                    self.add_notes(chord, dur)
-
-                    # warning should hold note
-                    self.add_notes(chord, value.subtract(duration, dur))
+                add_item(chord, duration)
 
         for c in chords:
             if c is not None:
                 add_chord(c, duration)
             else:
-                self.add_notes(None, duration)
+                add_item(None, duration)
         return self
 
     def get_tuning(self):
